@@ -1,6 +1,6 @@
 """What MANIFEST.json says about each claimed property."""
 
-HOOK_COMMITS = ["34ba92b", "6392308", "4d0deaa"]
+HOOK_COMMITS = ["34ba92b", "6392308", "4d0deaa", "0a7e437"]
 
 ENGINES = [
     dict(name="tlc", path="/usr/local/bin/tlc", kind_free_text="TLC 1.8.0 explicit-state model checker: exhaustive checking of the specifications in /verif/spec, simulation-mode behaviour generation, trace validation",
